@@ -366,6 +366,100 @@ fn rx_gone<C: Chan>(e: &'static Engine, workers: usize, senders: &'static [(char
     e.note(&format!("{} {}", fmt_list(&got), fmt_list(&sends)));
 }
 
+/// like `deliver`, but every Sender stays alive until the receivers got all messages (each receiver runs exactly
+/// its operations, no final drain): only the send itself can wake a blocked receiver, not the last drop
+fn deliver_hold<C: Chan>(e: &'static Engine, workers: usize, senders: &'static [(char, usize)], receivers: &'static [(char, &'static str)]) {
+    rt_init(workers);
+    let (tx, rx) = C::new();
+    let done = Arc::new(may::sync::SyncFlag::new());
+    let left = Arc::new(std::sync::atomic::AtomicUsize::new(receivers.len()));
+    let results: Arc<Mutex<Vec<Vec<Got>>>> = Arc::new(Mutex::new(vec![vec![]; receivers.len()]));
+    let mut txs: Vec<C::Tx> = vec![];
+    for i in 0..senders.len() {
+        if i + 1 < senders.len() {
+            txs.push(C::clone_tx(&tx).unwrap());
+        }
+    }
+    txs.push(tx);
+    let mut rxs: Vec<C::Rx> = vec![];
+    for i in 0..receivers.len() {
+        if i + 1 < receivers.len() {
+            rxs.push(C::clone_rx(&rx).unwrap());
+        }
+    }
+    rxs.push(rx);
+    let mut sent = vec![];
+    e.begin();
+    let mut hs = vec![];
+    for (i, (k, ops)) in receivers.iter().enumerate() {
+        let rx = rxs.remove(0);
+        let (results, done, left) = (results.clone(), done.clone(), left.clone());
+        hs.push(spawn_part(e, *k, move || {
+            let g = receive::<C>(e, &rx, ops, false);
+            results.lock().unwrap()[i] = g;
+            if left.fetch_sub(1, std::sync::atomic::Ordering::SeqCst) == 1 {
+                done.fire();
+            }
+            // the receiver handle lives until the senders are gone too
+            done.wait();
+            drop(rx);
+        }));
+    }
+    for (s, (k, n)) in senders.iter().enumerate() {
+        let tx = txs.remove(0);
+        let n = *n;
+        for j in 0..n {
+            sent.push((s * 10 + j + 1) as u32);
+        }
+        let done = done.clone();
+        hs.push(spawn_part(e, *k, move || {
+            for j in 0..n {
+                let id = (s * 10 + j + 1) as u32;
+                if C::send(&tx, Tracked::new(id)).is_err() {
+                    e.fail("send_failed", "send failed although a receiver exists");
+                }
+            }
+            // e.g. waiting for a reply: the Sender stays alive
+            done.wait();
+            drop(tx);
+        }));
+    }
+    for h in hs {
+        if join_part(e, h).is_err() {
+            e.fail("unexpected_panic", "a participant panicked");
+        }
+    }
+    let res = results.lock().unwrap().clone();
+    let mut all: Vec<u32> = vec![];
+    for g in res.iter() {
+        for x in g.iter() {
+            match x {
+                Got::V(v) => all.push(*v),
+                Got::Disc => e.fail("spurious_disconnect", "a receiver saw Disconnected while every Sender was alive"),
+                _ => {}
+            }
+        }
+    }
+    all.sort();
+    sent.sort();
+    if all != sent {
+        e.fail("exactly_once", &format!("sent {:?} but received {:?}", sent, all));
+    }
+    check_drops(e, sent.iter().cloned());
+    e.note(&fmt_list(&res));
+}
+
+fn mk_hold<C: Chan>(workers: usize, senders: &'static [(char, usize)], receivers: &'static [(char, &'static str)]) -> Scenario {
+    let name = format!(
+        "{}.hold_tx.tx{}.rx{}.w{}",
+        C::KIND,
+        senders.iter().map(|(k, n)| format!("{}{}", k, n)).collect::<Vec<_>>().join("_"),
+        receivers.iter().map(|(k, o)| format!("{}{}", k, o)).collect::<Vec<_>>().join("_"),
+        workers
+    );
+    Scenario::new("C06", C::KIND, name, Arc::new(move |e| deliver_hold::<C>(e, workers, senders, receivers)))
+}
+
 fn mk_deliver<C: Chan>(workers: usize, senders: &'static [(char, usize)], receivers: &'static [(char, &'static str)], prequeued: usize, main_holds_tx: bool, prop: &'static str) -> Scenario {
     let any_co = senders.iter().any(|s| s.0 == 'C') || receivers.iter().any(|r| r.0 == 'C');
     let name = format!(
@@ -425,6 +519,13 @@ pub fn build_c06(quick: bool) -> Vec<Scenario> {
         v.push(mk_deliver::<Mpmc>(w, &[('C', 2)], &[('C', "R"), ('C', "R")], 0, false, p));
         v.push(mk_deliver::<Mpmc>(w, &[('T', 1), ('C', 1)], &[('C', "R"), ('T', "R")], 0, false, p));
         v.push(mk_deliver::<Mpmc>(w, &[('C', 2)], &[('C', "TR")], 0, false, p));
+    }
+    for w in [1usize, 2] {
+        v.push(mk_hold::<Spsc>(w, &[('T', 2)], &[('C', "RR")]));
+        v.push(mk_hold::<Spsc>(w, &[('C', 2)], &[('T', "RR")]));
+        v.push(mk_hold::<Spsc>(w, &[('C', 3)], &[('C', "RRR")]));
+        v.push(mk_hold::<Mpsc>(w, &[('C', 1), ('T', 1)], &[('C', "RR")]));
+        v.push(mk_hold::<Mpmc>(w, &[('C', 2)], &[('C', "R"), ('C', "R")]));
     }
     if !quick {
         v.push(mk_deliver::<Mpsc>(2, &[('C', 2), ('C', 2)], &[('C', "RRRR")], 0, false, p));
